@@ -113,6 +113,7 @@ func init() {
 		"(*sync.WaitGroup).Wait":               extWGWait,
 		"(*sync.Once).Do":                      extOnceDo,
 		"errors.Is":                            extErrorsIs,
+		"unicode.IsSpace":                      extIsSpace,
 		"unicode/utf8.DecodeRuneInString":      nil,
 	} {
 		if v != nil {
@@ -566,4 +567,25 @@ func findMethod(i *interpreter, t types.Type, name string) *ssa.Function {
 		}
 	}
 	return nil
+}
+
+// extIsSpace: unicode.IsSpace on a possibly symbolic rune (White_Space property).
+func extIsSpace(fr *frame, args []value) value {
+	i := fr.i
+	t, ok := args[0].(*Term)
+	if !ok {
+		r := args[0].(int32)
+		switch r {
+		case '\t', '\n', '\v', '\f', '\r', ' ', 0x85, 0xA0, 0x1680, 0x2028, 0x2029, 0x202f, 0x205f, 0x3000:
+			return true
+		}
+		return r >= 0x2000 && r <= 0x200a
+	}
+	tb := i.tb
+	c := tb.ff
+	for _, r := range []uint64{'\t', '\n', '\v', '\f', '\r', ' ', 0x85, 0xA0, 0x1680, 0x2028, 0x2029, 0x202f, 0x205f, 0x3000} {
+		c = tb.Or(c, tb.Eq(t, tb.BV(32, r)))
+	}
+	c = tb.Or(c, tb.And(tb.Bin(opUle, tb.BV(32, 0x2000), t), tb.Bin(opUle, t, tb.BV(32, 0x200a))))
+	return norm(types.Typ[types.Bool], c)
 }
